@@ -528,6 +528,11 @@ Definition code_of (s : snip) : list instr :=
   | SnUseLeak => [IUseLeak]
   | SnUseFiber => [IUseFiber]
   | SnProbeTotal => [IBuiltinErr KName total_msg]   (* GetGlobal of a name no snippet declares *)
+  (* the finally block is entered by unwind_stack (flag := true, no catch clause); `return` leaves the frame without
+     EndFinally, so nothing clears the flag: the run ends successfully with handling_exception = true *)
+  | SnSwallowOk => [ICall; IPush false; IThrow 1; IRet; IOut "8"]
+  (* Fiber.yield inside the finally block: the caller continues, the parked fiber is never resumed *)
+  | SnParkFin => [IFiberEnter; IPush false; IThrow 1; IFiberLeave; IOut "3"]
   | SnImport m => [IStartImport m; IFinishImport m true; IUseMod m]
   | SnUseMod m => [IUseMod m]
   | SnReset => []
@@ -553,6 +558,7 @@ Definition chunks_of (s : snip) : nat :=
   | SnThrow w _ => chunks_where w
   | SnFiberOk => 2
   | SnCaptureOk => 3
+  | SnSwallowOk | SnParkFin => 2
   | SnReset => 0
   | _ => 1
   end.
